@@ -24,6 +24,13 @@ func docsEqual(a, b bsonkit.Doc) bool {
 	return bytes.Equal(aBytes, bBytes)
 }
 
+// idsEqual reports whether two _id values are identical in type and value. The
+// values are compared by their BSON encoding as interface comparison panics
+// for document, array and binary values.
+func idsEqual(a, b interface{}) bool {
+	return docsEqual(&bson.D{{Key: "_id", Value: a}}, &bson.D{{Key: "_id", Value: b}})
+}
+
 // Result is returned by collection operations.
 type Result struct {
 	// The list of found or deleted documents.
@@ -173,7 +180,7 @@ func (c *Collection) Replace(query, repl, sort bsonkit.Doc) (*Result, error) {
 		if err != nil {
 			return nil, err
 		}
-	} else if replID != bsonkit.Get(list[0], "_id") {
+	} else if !idsEqual(replID, bsonkit.Get(list[0], "_id")) {
 		return nil, fmt.Errorf("document _id is immutable")
 	}
 
@@ -263,7 +270,7 @@ func (c *Collection) Update(query, update, sort bsonkit.Doc, skip, limit int, ar
 
 	// check ids
 	for i, doc := range newList {
-		if bsonkit.Get(doc, "_id") != bsonkit.Get(list[i], "_id") {
+		if !idsEqual(bsonkit.Get(doc, "_id"), bsonkit.Get(list[i], "_id")) {
 			return nil, fmt.Errorf("document _id is immutable")
 		}
 	}
